@@ -913,6 +913,27 @@ def exact_rule(F, R):
                             "fixed-size views' from_boxed_unchecked (`try_into().unwrap_unchecked()`) is undefined behaviour on any other "
                             "length, and every accessor proof (SUBVIEW/HRS) assumes the exact size" % (short(p), fmt(a, 160)), c.span.loc)
     R.floor("EXACT", n, 4, "View::from_*_unchecked calls in the View trait's safe default methods")
+    # owned conversions outside the trait: a boxed view may only be re-wrapped from the boxed bytes of another view of the
+    # same generic struct (typed packet view -> raw packet view; TYPED shows both are validated over the same bytes)
+    m = 0
+    for (p, c) in T.call_sites(F, lambda q: re.search(r"::from_boxed_unchecked$", q), crates=["sciparse"]):
+        if p.startswith("sciparse::core::view::View::") or F.fns[p].get("unsafe") or T.is_test_support(p):
+            continue
+        m += 1
+        R.fn(p)
+        pb = F.body(p)
+        a = _nref(strip_sites(pb.origin(c.args[0])))
+        ok = False
+        if a[0] == "call" and a[1].endswith("View>::as_slice_boxed") and _nref(a[2][0]) == ("param", 1):
+            src_ty = re.sub(r"(<| as ).*$", "", re.sub(r"^<", "", a[1]))
+            dst_ty = re.sub(r"(<| as ).*$", "", re.sub(r"^<", "", c.callee))
+            ok = src_ty == dst_ty
+        R.ob("EXACT", "%s re-wraps the boxed bytes of a view of the same struct" % short(p), ok, True,
+             {"rule": "EXACT", "fn": p, "argument": fmt(a, 200)})
+        if not ok:
+            R.violation("EXACT", p + "/from_boxed_unchecked", "%s builds an owned view from %s, which is not the boxed byte image of a view of the "
+                        "same struct: the new view's buffer length is not shown to equal its has_required_size" % (short(p), fmt(a, 160)), c.span.loc)
+    R.floor("EXACT-owned", m, 2, "from_boxed_unchecked calls in safe functions outside the View trait")
 
 
 def thorough_extra(R):
